@@ -300,6 +300,10 @@ def generate():
         m = re.search(r'let\s+mut\s+sendbuf_size\s*=\s*\*SYSTEM_SENDBUF_SIZE;', send)
         if not m:
             fail("initial sendbuf_size not found")
+        # the sender's own copy of the dedicated receive end is released as soon as the first fragment has carried it over (C09)
+        m = re.search(r'if\s+byte_position\s*==\s*0\s*\{\s*dedicated_rx\s*=\s*None;\s*\}\s*byte_position\s*=\s*end_byte_position;', send)
+        m0 = re.search(r'let\s+mut\s+dedicated_rx\s*=\s*Some\(dedicated_rx\);', send)
+        out.append(f"def vKeepOwnRef : Bool := {'false' if m and m0 else 'true'}  -- false: `dedicated_rx = None` right after the first fragment went out")
         # descriptor order in send: channels, then regions, then the dedicated receiver
         i1 = send.find('for channel in channels.iter()')
         i2 = send.find('for shared_memory_region in shared_memory_regions.iter()')
